@@ -1074,13 +1074,14 @@ func (in *minInst) build() *minRun {
 	}
 	if in.initVals > 0 {
 		iv := &optimize.Location{F: o.F(in.initX)}
-		if in.initVals >= 2 && (r.prob.Grad != nil || (in.method == mNelderMead && o.grad != nil)) {
-			// (NelderMead does not use a gradient; one may be supplied all
-			// the same and must not influence the run)
+		if in.initVals >= 2 && (r.prob.Grad != nil || o.grad != nil) {
+			// (a method that does not use gradients may be handed one all
+			// the same - "other fields may be specified" - and it must not
+			// influence the run)
 			iv.Gradient = make([]float64, in.dim)
 			o.Grad(iv.Gradient, in.initX)
 		}
-		if in.initVals >= 3 && r.prob.Hess != nil && iv.Gradient != nil {
+		if in.initVals >= 3 && (r.prob.Hess != nil || o.hess != nil) && iv.Gradient != nil {
 			iv.Hessian = mat.NewSymDense(in.dim, nil)
 			o.hess(iv.Hessian, in.initX)
 		}
